@@ -30,7 +30,8 @@ for p in ALL:
         "level_claimed": {
             "category": "proof",
             "text": spec.get("level_text") or ("Lean 4 theorems over a model of the code, for all inputs/sequences without bounds (kernel-checked, axioms audited), "
-                     "tied to /repo on every run by generated constants and a differential correspondence run of the real code against the model's executable definitions, "
+                     "tied to /repo on every run by generated constants, extracted skeletons (canonical form for what no run observes; change detectors elsewhere) and a differential correspondence run of the real code against the model's executable definitions "
+                     "(hand-written generators + coverage- and behaviour-guided corpora), "
                      "plus an independent oracle on the real code's answers. " + spec.get("explanation", "")),
             "design_ref": spec.get("design_ref", "DESIGN.md §6 " + pid),
         },
@@ -51,7 +52,7 @@ m = {
     "engines": [
         {"name": "lean4-proof+correspondence", "path": "tools/check.py",
          "serves_properties": [c["property_id"] for c in checks],
-         "kind_free_text": "Lean 4 model + theorems (lean/), Rust harness running the real code (harness/), translators (tools/gen_consts.py, tools/extract_skeleton.py), orchestrator tools/check.py"}
+         "kind_free_text": "Lean 4 model + theorems (lean/), Rust harness running the real code (harness/), translators (tools/gen_consts.py, tools/extract_skeleton.py), guided case generation (tools/fuzzgen.py, fuzz/: libFuzzer corpora, search support only), orchestrator tools/check.py"}
     ],
     "checks": checks,
     "notes": "See DESIGN.md. known_findings.txt lists recorded findings and fixed defects.",
